@@ -79,10 +79,11 @@ def run(chk, repo, tier):
     chk.rule('C12.R3', 'dummy bond of split_matrix_svd (as C11.R3) with one zero singular value')
     chk.rule('C12.R4', 'truncation: one index set from retained_bond_indices(s) restricts u, s, v and q along the '
                        'intermediate axis')
+    chk.rule('C12.R7', 'storage type: the factor arrays are allocated with an inexact dtype (integer input is promoted first)')
     chk.rule('C12.R5', 'inputs are never written: retained_bond_indices, split_matrix_svd, split_mps_tensor (effects)')
     chk.rule('C12.R6', 'split_mps_tensor for all three singular-value distributions: leg layout, total exponent 1, charge '
                        'orientation, merge undoes split')
-    fi, ba, items = run_block(chk, repo, 'C12', 'bond_ops.split_matrix_svd', 'svd')
+    fi, ba, items = run_block(chk, repo, 'C12', 'bond_ops.split_matrix_svd', 'svd', rule_override={'dtype': 'C12.R7'})
     bounds_rule(chk, repo, 'C12.R2', fi, getattr(ba, 'Dname', 'D'))
     c = ba.counts
     if (c['cond_perm'] < 2 or c['unperm'] < 2 or c['block_store'] < 4 or c['dummy'] < 1) and all(i[2] for i in items):
